@@ -677,6 +677,9 @@ func c15CoqLRes(errClass string, p *c15PChart) string {
 
 func (p *c15) CoqCase(ci, oi any) string {
 	c, obs := ci.(c15Case), oi.(c15Obs)
+	if obs.Panic == "" && (c.Kind == "match" || c.Kind == "matchex") {
+		return c15CoqMatchCase(c, obs)
+	}
 	if obs.Panic != "" || obs.Oracle == nil {
 		return "CPanic"
 	}
